@@ -72,7 +72,7 @@ class AggrGen:
         if t == ("fn",):
             p = self.fresh("p")
             # listed finding G2 (WASM: a closure capturing a variable bound by tuple destructuring reads 0): not captured here
-            fl = [v for v, t, m in ctx if t == ("f",) and m != "destr"]
+            fl = [v for v, t, m in ctx if t == ("f",)]      # (destructured variables too: finding G2 is repaired, /repo ee06339)
             body = Node("bin", "add", Node("bin", "mul", Node("var", p), L(r.pick(LITS))), Node("var", r.pick(fl)) if fl and r.chance(1, 2) else L(r.pick(LITS)))
             return Node("lam", [p], body)
         if t[0] == "t":
